@@ -33,7 +33,8 @@ pub struct Scenario {
     pub cost: usize,      // index into COSTS
     pub depth: usize,     // index into DEPTHS
     pub interp: bool,     // include_linear_interpolation
-    pub obstacle: usize,  // 0 free, 1 grazing (1.1 r), 2 inside safety (0.9 r), 3 blocks a segment midpoint, 4 blocks one landing branch, 5 blocks everything
+    pub obstacle: usize,  // 0 free, 1 grazing (1.1 r), 2 inside safety (0.9 r), 3 blocks a segment midpoint, 4 blocks one landing branch, 5 blocks everything,
+                          // 6 blocks the second arm branch of the tilted landing pose mid-stroke only (its landing solution stays free)
     pub safety: usize,    // 0 touch, 1 3 cm
     pub limits: usize,    // 0 wide, 1 tight
     pub rrt_try: usize,   // max_try of the RRT planner
@@ -79,7 +80,7 @@ pub fn build(s: &Scenario) -> Built {
     } else {
         Limits { from: [-1.2, -0.6, -0.4, -1.5, -1.0, -1.5], to: [1.2, 1.6, 2.0, 1.5, 1.8, 1.5], weight: 0.0 }
     };
-    let q_land = if s.land == 1 || s.obstacle == 4 { Q_LAND_TILTED } else { Q_LAND };
+    let q_land = if s.land == 1 || s.obstacle == 4 || s.obstacle == 6 { Q_LAND_TILTED } else { Q_LAND };
     let land = cell.tcp(&q_land);
     // stroke: 5 cm legs from the landing pose, first down (-z), then along y (straight) or x then y (cornered)
     let leg = 0.05;
@@ -124,6 +125,28 @@ pub fn build(s: &Scenario) -> Built {
         }
         // a slab through the whole working volume
         5 => vec![bx([-2.0, -2.0, tip[2] - 0.1], [2.0, 2.0, tip[2] + 0.3])],
+        // a small cube just ahead of where the elbow of the *other* arm branch travels during the first stroke leg
+        6 => {
+            let alt: Joints = [0.4, 1.6, -1.3, 0.51, 2.17, 0.8];
+            let target = steps.first().copied().unwrap_or(park);
+            let probe = cell.kinematics();
+            let alt_land = probe.inverse_continuing(&to_na(&land), &alt).into_iter().next().unwrap_or(alt);
+            let alt_stroke = probe.inverse_continuing(&to_na(&target), &alt_land).into_iter().next().unwrap_or(alt_land);
+            let (e0, e1) = (cell.link_poses(&alt_land)[2], cell.link_poses(&alt_stroke)[2]);
+            // centre of the elbow box in its frame is (0,0,0.025), half extents (0.05,0.05,0.075)
+            let (c0, c1) = (e0.apply([0.0, 0.0, 0.025]), e1.apply([0.0, 0.0, 0.025]));
+            let d = sub(c1, c0);
+            let len = norm(d);
+            if len < 5e-3 {
+                vec![]
+            } else {
+                let dir = scale(d, 1.0 / len);
+                let h = (0..3).map(|k| dot(dir, col(&e0.r, k)).abs() * [0.05, 0.05, 0.075][k]).sum::<f64>();
+                let half = 0.02;
+                let c = add(c0, scale(dir, h + half + 0.4 * len));
+                vec![bx([c[0] - half, c[1] - half, c[2] - half], [c[0] + half, c[1] + half, c[2] + half])]
+            }
+        }
         _ => vec![],
     };
     let robot = cell.robot();
@@ -474,6 +497,8 @@ fn sched_scenarios(thorough: bool) -> Vec<(Scenario, Option<usize>)> {
         (Scenario { obstacle: 4, ..c.clone() }, Some(1)),
         // four strategies, preemption-bounded
         (Scenario { obstacle: 0, land: 1, ..c.clone() }, Some(1)),
+        // four strategies of which the two on the second arm branch fail mid-stroke: real, differing outcomes
+        (Scenario { obstacle: 6, ..c.clone() }, Some(1)),
     ];
     if thorough {
         v.push((Scenario { obstacle: 0, stroke: 2, start: 2, ..c.clone() }, None));
@@ -505,7 +530,7 @@ pub fn run(ctx: &Ctx) -> Report {
     }
     verif_hooks::arm_global_script(Box::new(|_| 1u64 << 63));
     // E1 scenario lattice. Full product on the axes that interact; the rest rotate.
-    let sizes = [3usize, 4, 2, 3, 2, 3, 3, 2, 6, 2, 2];
+    let sizes = [3usize, 4, 2, 3, 2, 3, 3, 2, 7, 2, 2];
     let n = par::product(&sizes);
     let stride: u64 = if thorough { 1 } else { 7 };
     let mut rep = par::run(n / stride + 1, |k, r| {
